@@ -496,8 +496,8 @@ def run(tier, replay=None):
     for f in os.listdir(os.path.join(core.OUT, "C14")):
         if f.startswith(("diff_", "harness_crash", "proof_broken")):
             os.remove(os.path.join(core.OUT, "C14", f))
-    tr = core.run_translators(["crc32tab"])
-    lres = core.lean_check(THM)
+    lres = core.lean_check(THM, translators=["crc32tab"])
+    tr = lres.get("translators")
     core.proof_coverage(chk, lres, THM, translators=tr)
     b = core.build("asan", harness=["h_mod"])
     lines, meta, ublines = generate(tier)
